@@ -15,7 +15,7 @@ EXTENDS FidelityMC, Json
 CONSTANT GenDepth   \* 0 = print every edge; > 0 = print behaviours of this length (simulation)
 
 VARIABLE hist
-gvars == <<in, st, ttl, store, obs, nd, na, rs, n, last, hist>>
+gvars == <<in, st, ttl, store, obs, nd, na, rs, no, n, last, hist>>
 
 GenInit == Init /\ hist = <<>>
 
